@@ -144,9 +144,11 @@ class StateMachine(metaclass=StateMachineMetaclass):
 
         self._listeners: Dict[Any, Any] = {}
 
-        self._register_callbacks([])
-        self.add_listener(*listeners.keys())
-        # the listeners were attached after `_register_callbacks` decided between sync and async
+        # Replay the attachment passes: callbacks of equal priority run in attachment order.
+        self._register_callbacks([o for o, attached in listeners.items() if not attached])
+        for attach_pass in sorted({attached for attached in listeners.values() if attached}):
+            self.add_listener(*(o for o, attached in listeners.items() if attached == attach_pass))
+        # listeners attached after `_register_callbacks` decided between sync and async
         self._callbacks.async_or_sync()
         self._engine = self._get_engine(rtc)
         self._engine.start()
@@ -187,7 +189,7 @@ class StateMachine(metaclass=StateMachineMetaclass):
         return self
 
     def _register_callbacks(self, listeners: List[object]):
-        self._listeners.update({listener: None for listener in listeners})
+        self._listeners.update({listener: 0 for listener in listeners})
         self._add_listener(
             Listeners.from_listeners(
                 (
@@ -228,7 +230,9 @@ class StateMachine(metaclass=StateMachineMetaclass):
 
             :ref:`listeners`.
         """
-        self._listeners.update({o: None for o in listeners})
+        attach_pass = max(self._listeners.values(), default=0) + 1
+        for o in listeners:
+            self._listeners.setdefault(o, attach_pass)
         return self._add_listener(
             Listeners.from_listeners(Listener.from_obj(o) for o in listeners),
             allowed_references=SPECS_SAFE,
